@@ -235,6 +235,9 @@ inductive ElemsD : List Char → List JVal → Prop
       ElemsD (v ++ s ++ vs) (x :: xs)
 end
 
+/-- `JSON-text = ws value ws` and the value it denotes  ; §2 -/
+def JsonTextD (cs : List Char) (x : JVal) : Prop := ∃ a v b, Ws a ∧ ValD v x ∧ Ws b ∧ cs = a ++ v ++ b
+
 /-! ## Part 3 — an executable recogniser for `number` (sound and complete: `Lemmas/JsonNumber.lean`) -/
 
 instance : DecidablePred Ws := fun cs => by unfold Ws; infer_instance
